@@ -245,7 +245,7 @@ func explainSelectWithUnionQueryWithInheritedWith(sb *strings.Builder, n *ast.Se
 	// INTO OUTFILE clause
 	for _, sel := range n.Selects {
 		if sq, ok := sel.(*ast.SelectQuery); ok && sq.IntoOutfile != nil {
-			fmt.Fprintf(sb, "%s Literal \\'%s\\'\n", indent, sq.IntoOutfile.Filename)
+			fmt.Fprintf(sb, "%s Literal \\'%s\\'\n", indent, escapeStringLiteral(sq.IntoOutfile.Filename))
 			break
 		}
 	}
@@ -342,7 +342,7 @@ func explainSelectWithUnionQuery(sb *strings.Builder, n *ast.SelectWithUnionQuer
 	// INTO OUTFILE clause - check if any SelectQuery has IntoOutfile set
 	for _, sel := range n.Selects {
 		if sq, ok := sel.(*ast.SelectQuery); ok && sq.IntoOutfile != nil {
-			fmt.Fprintf(sb, "%s Literal \\'%s\\'\n", indent, sq.IntoOutfile.Filename)
+			fmt.Fprintf(sb, "%s Literal \\'%s\\'\n", indent, escapeStringLiteral(sq.IntoOutfile.Filename))
 			break
 		}
 	}
@@ -575,7 +575,7 @@ func explainOrderByElement(sb *strings.Builder, n *ast.OrderByElement, indent st
 	}
 	if n.Collate != "" {
 		// COLLATE is output as a string literal
-		fmt.Fprintf(sb, "%s Literal \\'%s\\'\n", indent, n.Collate)
+		fmt.Fprintf(sb, "%s Literal \\'%s\\'\n", indent, escapeStringLiteral(n.Collate))
 	}
 }
 
